@@ -109,7 +109,7 @@ def run(tier, seed):
         t = tabs[I["t"] - 1]
         c = 0.01 * rng.uniform(0.5, 2.0)
         cell = gl.cell_from_recip_metric(I["met"], c)
-        smin, smax = gl.bounds(I["K"], I["Kmin"], c)
+        smin, smax = gl.bounds(I["K"], I["Kmin"], c, tight=0 if (I.get("pseudo") or I.get("long")) else i % 5)
         if I["Kmin"] == 0 and i % 3 == 0:
             smin = -0.1 * (i % 2)          # a lower bound of exactly 0 or below 0 means "no lower bound": 000 is never a reflection
         variants = [("tools", dict(sgno=t["no"], cell_choice=t["setting"]), rng.randrange(1 << 30)),
